@@ -227,6 +227,100 @@ def collect_idents(ast, sink, in_func_name):
             collect_idents(x, sink, False)
 
 
+def collision_matrix():
+    """Programs in which the compiler has to invent relation names (an alias for the second
+    unaliased instance of a table, a CTE for a sub-pipeline or for a split), with the user's own
+    tables / lets carrying exactly those names.  -> list of (label, prog, rename-map)"""
+    def col(q, n):
+        return ["col", q, n]
+
+    def frm(t):
+        return {"t": "from", "src": {"k": "table", "name": t}, "alias": None}
+
+    def join_that(t, left_q, lcol, rcol, side="inner"):
+        return {"t": "join", "src": {"k": "table", "name": t}, "alias": None, "side": side, "cond": ["bin", "==", col(left_q, lcol), col("that", rcol)]}
+    sel = {"t": "select", "items": [[None, col("t1", "id")], [None, col("t1", "k")]]}
+    srt = {"t": "sort", "keys": [[False, col("t1", "id")]]}
+    templates = {
+        "dup2": [frm("t1"), join_that("t2", "t1", "id", "id"), join_that("t2", "t1", "k", "k")],
+        "dup2_select": [frm("t1"), join_that("t2", "t1", "id", "id"), join_that("t2", "t1", "k", "k"), sel],
+        "dup3_select": [frm("t1"), join_that("t2", "t1", "id", "id"), join_that("t2", "t1", "k", "k"), join_that("t2", "t1", "a", "a"), sel],
+        "dup2_left_sort_take": [frm("t1"), join_that("t2", "t1", "id", "id", "left"), join_that("t2", "t1", "k", "k", "left"), sel, srt, {"t": "take", "lo": None, "hi": 3}],
+        "self_dup": [frm("t1"), join_that("t1", "t1", "id", "id"), sel],
+        "split": [frm("t1"), srt, {"t": "take", "lo": None, "hi": 3}, {"t": "filter", "cond": ["bin", ">", col("t1", "id"), ["lit", 0]]},
+                  {"t": "sort", "keys": [[True, col("t1", "k")]]}, {"t": "take", "lo": None, "hi": 2}],
+        "split_join": [frm("t1"), srt, {"t": "take", "lo": None, "hi": 3}, join_that("t2", "t1", "id", "id"), sel],
+        "join_pipe": [frm("t1"), {"t": "join", "src": {"k": "pipe", "pipe": [frm("t2"), {"t": "select", "items": [[None, col("t2", "id")], [None, col("t2", "c")]]}, {"t": "sort", "keys": [[False, col("t2", "id")]]}, {"t": "take", "lo": None, "hi": 2}]},
+                                  "alias": "jp", "side": "inner", "cond": ["bin", "==", col("t1", "id"), col("jp", "id")]}, sel],
+    }
+    gens = [None, "table_0", "table_1", "table_2"]
+    out = []
+    for label, main in sorted(templates.items()):
+        for g1 in gens:
+            for g2 in gens:
+                if g1 is None and g2 is None or (g1 is not None and g1 == g2):
+                    continue
+                m = {}
+                if g1:
+                    m[("table", "t1")] = g1
+                if g2:
+                    m[("table", "t2")] = g2
+                out.append(("%s/%s,%s" % (label, g1 or "-", g2 or "-"), {"lets": [], "main": copy.deepcopy(main), "cuts": []}, m))
+        # the same program behind a let that carries a generated name
+        for g in gens[1:]:
+            prog = {"lets": [["lx", copy.deepcopy(main)]], "main": [{"t": "from", "src": {"k": "let", "name": "lx"}, "alias": None}], "cuts": []}
+            out.append(("%s/let=%s" % (label, g), prog, {("let", "lx"): g}))
+    return out
+
+
+def _matrix_part(w, rng, shard, nshards, obs, viols, seen):
+    cases = collision_matrix()
+    for i, (label, prog, m) in enumerate(cases):
+        if i % nshards != shard:
+            continue
+        for kind in ("normal", "dups"):
+            db = grel.gen_db(rng, kind)
+            p2, db2 = rename(prog, db, m)
+            try:
+                src2 = grel.pp_program(p2)
+            except ValueError:
+                continue
+            names2 = collect_names(p2, db2)
+            user_all = set().union(*names2.values())
+            for dialect in ("sqlite", "generic"):
+                w.db_close_all()
+                # only the renaming is judged: the program with neutral names must be clean
+                w.db_open("d", grel.db_stmts(db))
+                base = relcheck.run_case(w, prog, db, "d", dialect)
+                if base.status != "judged" or base.symptoms:
+                    obs["matrix_base_not_clean"] = obs.get("matrix_base_not_clean", 0) + 1
+                    continue
+                w.db_open("h", grel.db_stmts(db2))
+                o = relcheck.run_case(w, p2, db2, "h", dialect, src=src2, user_names=user_all)
+                obs["matrix_cases"] = obs.get("matrix_cases", 0) + 1
+                symptoms = []
+                if o.status == "rejected":
+                    obs["matrix_rejected"] = obs.get("matrix_rejected", 0) + 1
+                elif o.status in ("panic", "abort"):
+                    symptoms.append(("renamed_panics", str(o.symptoms)[:200], (o.symptoms[0][0], o.symptoms[0][1])) if o.symptoms else ("renamed_panics", ""))
+                elif o.status == "judged":
+                    obs["matrix_judged"] = obs.get("matrix_judged", 0) + 1
+                    obs["cells"].add(("generated", "matrix:" + label.split("/")[0]))
+                    for (pp, sym, det) in o.symptoms:
+                        if pp in ("C01", "C03", "C05", "C07"):
+                            symptoms.append(("renamed_" + sym, det + " || sql: " + (o.sql or "")[:300], (pp, sym)))
+                for item in symptoms:
+                    sym, det = item[0], item[1]
+                    key = (sym, label.split("/")[0], "matrix")
+                    if key in seen:
+                        continue
+                    seen.add(key)
+                    pos = "+".join(sorted({k[0] for k in m})) or "let"
+                    viols.append({"property": "C09", "symptom": sym, "shape": "%s :: generated/matrix:%s:%s :: inherits:none" % (dialect, label.split("/")[0], pos),
+                                  "witness": {"prog": p2, "db": db2, "dialect": dialect, "class": "generated", "map": [[list(k), v] for k, v in m.items()], "prql": src2, "matrix": label},
+                                  "detail": det})
+
+
 def _shard(seed, shard, n_cases):
     rng = core.shard_rng(seed, "C09", shard)
     w = core.Worker()
@@ -235,6 +329,7 @@ def _shard(seed, shard, n_cases):
     classes = sorted(POOLS)
     ci = 0
     n_reduced = 0
+    _matrix_part(w, rng, shard, core.NCPU, obs, viols, seen)
     while obs["cases"] < n_cases:
         db = grel.gen_db(rng, relcheck.DB_KINDS[ci % 5])
         try:
